@@ -139,3 +139,56 @@ def rule_options_is_valid(col, facts, crate):
     calls = [callee_name(c) for _b, c, _a, _d, _t in g.calls()]
     col.check(R, "%s:Options::is_valid" % crate, calls == ["%s::options::Options::rebuild" % crate, adt + "::is_valid"],
               "Options::is_valid is not `self.rebuild().is_valid()` (calls %s)" % calls, g.loc())
+
+
+def rule_is_valid_agrees_with_build(col, facts, crate):
+    """SIB-valid: `OptionsBuilder::is_valid()` and `build()` are two spellings of one predicate - the first is
+    what `Options::is_valid()` (hence every `debug_assert!(options.is_valid())` and every user who mutated the
+    options) relies on, the second what `build_strict` enforces.  Every condition under which `build()` returns
+    an error must make `is_valid()` false: for the scalar fields the rejecting comparison itself must appear
+    among is_valid's rejecting tests; for the option strings is_valid must consult the per-string validators."""
+    from rules import grd as G
+    R = "SIB-valid"
+    adt = "%s::options::OptionsBuilder" % crate
+    fb = facts.fn(adt + "::build", required=False)
+    fv = facts.fn(adt + "::is_valid", required=False)
+    if fb is None or fv is None:
+        return 0
+
+    def rejecting(f, want):
+        out = []
+        for i, b in enumerate(f.blocks):
+            if not f.live(i):
+                continue
+            for st in b["s"]:
+                if st[0] == "=" and st[1] == [0, []]:
+                    rv = st[2]
+                    tag = None
+                    if rv[0] == "agg" and rv[1][0] == "adt" and rv[1][3] == "Err":
+                        tag = "Err"
+                    if rv[0] == "use" and rv[1][0] == "k" and rv[1][1].get("ty") == "bool":
+                        tag = bool(rv[1][1].get("v"))
+                    if tag == want:
+                        pc = path_conditions(f, i)
+                        if pc:
+                            _d, e, p = pc[-1]
+                            out.append((G.norm(strip_casts(e)), p, f.loc(st[3])))
+        return out
+    rb = rejecting(fb, "Err")
+    rv_ = rejecting(fv, False)
+    have = {(e, p) for e, p, _l in rv_}
+    n = 0
+    strings = False
+    for e, p, loc in rb:
+        names = {last_seg(c[1]) for c in expr_calls(e)}
+        if names & {"unwrap_str", "is_some", "is_none", "is_empty", "len", "is_valid_letter_slice"} or "MAX_SPECIAL_STRING_LENGTH" in show(e):
+            strings = True
+            continue
+        n += 1
+        col.check(R, "%s:%s" % (crate.replace("lexical_", ""), show(e)[:70]), (e, p) in have,
+                  "build() rejects the options when `%s` is %s, but is_valid() has no such test: options that cannot be built are reported valid (Options::is_valid(), which the writers' debug assertions and users of the setters rely on, says true)" % (show(e)[:100], p), loc)
+    if strings:
+        sv = {last_seg(c[1]) for e, p, _l in rv_ for c in expr_calls(e)}
+        col.check(R, "%s:special-strings" % crate.replace("lexical_", ""), any(x.endswith("_str_is_valid") or x.endswith("_string_is_valid") for x in sv) or any(("unwrap_str" in show(e)) for e, p, _l in rv_),
+                  "build() validates the special strings but is_valid() never consults a string validator (tests: %s)" % sorted(sv), fv.loc())
+    return n
